@@ -8,7 +8,8 @@ PROP = "C05"
 LEVEL = "translation_validation"
 RULE = ("generated Bloch programs (profile 'qasm': gates through functions, @quantum functions, methods, "
         "loops, conditionals on measured bits, qubit arrays, object qubit fields, resets, destroy and "
-        "index reuse; single- and multi-shot) run with --emit-qasm. Per program: the text is parsed by "
+        "index reuse; single- and multi-shot) run with --emit-qasm (two thirds) or without it, in which case "
+        "the listing is the .qasm file written next to the source. Per program: the text is parsed by "
         "a strict OpenQASM 2 reader for the emitted subset, register sizes = qubits allocated, operands "
         "in range, cx on distinct qubits, the operation list equals the traced simulator operations of "
         "the last execution one-for-one, the listing is replayed on an independent state-vector "
@@ -26,7 +27,8 @@ def check_case(ctx, binary, case):
     if "qubit" not in src[len(qlang.PRELUDE):]:
         return
     seed = (ctx.seed * 7919 + case["index"]) & 0x7fffffff
-    args = ["--emit-qasm"] + (["--shots=%d" % shots] if shots else [])
+    emit = case.get("emit", True)     # without the flag the listing is only written next to the source
+    args = (["--emit-qasm"] if emit else []) + (["--shots=%d" % shots] if shots else [])
     # source file names with extra dots and dotted directories: the listing is written "next to
     # the source" under the same stem
     fname = ["prog.bloch", "my.prog.v2.bloch", "dir.v1/prog.bloch", "prog.bloch", "a.b/c.d.bloch"][case["index"] % 5]
@@ -49,10 +51,16 @@ def check_case(ctx, binary, case):
         return
     i = r.stdout.find("OPENQASM 2.0;")
     text = r.stdout[i:] if i >= 0 else ""
+    if not emit:
+        if i >= 0:
+            ctx.violation("qasm:printed-without-flag", "OpenQASM text printed without --emit-qasm", case, files)
+        i, text = (0, qfile) if qfile else (-1, "")
+        ctx.count("listings_read_from_file_only")
     ctx.note_case(src, sample=dict(program_tail=src[len(qlang.PRELUDE):][:400], qasm_head=text[:300]))
     files["emitted.qasm"] = text
     if i < 0:
-        ctx.violation("qasm:missing", "--emit-qasm printed no OpenQASM text", case, files)
+        ctx.violation("qasm:missing", "--emit-qasm printed no OpenQASM text" if emit else
+                      "no .qasm file was written next to the source", case, files)
         return
     want_file = os.path.splitext(fname)[0] + ".qasm"
     if sorted(produced) != [want_file]:
@@ -124,7 +132,8 @@ def run(ctx):
     cases = []
     for i in range(n):
         prof = ["qasm", "qasm", "handles", "reset", "gates"][i % 5]
-        cases.append(dict(profile=prof, index=i, shots=[0, 0, 0, 3, 1][i % 5] if i % 7 else 2))
+        cases.append(dict(profile=prof, index=i, shots=[0, 0, 0, 3, 1][i % 5] if i % 7 else 2,
+                          emit=(i % 3 != 1)))
     core.pmap(lambda c: check_case(ctx, binary, c), cases)
     if ctx.evaluations < n // 3:
         ctx.inconclusive_because("only %d programs produced a listing" % ctx.evaluations)
